@@ -75,7 +75,7 @@ Lemma nodup_length (l : list nat) : length (nodup Nat.eq_dec l) <= length l.
 Proof. induction l as [|y l IH]; cbn; [lia|]. destruct (in_dec Nat.eq_dec y l); cbn; lia. Qed.
 
 Lemma fuel_passes l f tops : forall ps s,
-  snd (run_passes repaired (assoc_kids l) f (S (length l)) ps tops s) <> Some CFuel.
+  snd (run_passes_on repaired (assoc_kids l) f (S (length l)) ps tops s) <> Some CFuel.
 Proof.
   set (U := nodup Nat.eq_dec (map fst l)).
   assert (HU : NoDup U) by apply NoDup_nodup.
@@ -83,7 +83,7 @@ Proof.
   { intros m cs H. apply nodup_In. apply (assoc_kids_in _ _ _ H). }
   assert (HB : forall p s, free p U s < S (length l)).
   { intros p s. pose proof (free_bound p U s). pose proof (nodup_length (map fst l)). rewrite map_length in *. unfold U in *. lia. }
-  induction ps as [|p ps IH]; intros s; cbn [run_passes]; [cbn; discriminate|].
+  induction ps as [|p ps IH]; intros s; cbn [run_passes_on]; [cbn; discriminate|].
   pose proof (fuel_fold (assoc_kids l) f p U (S (length l)) (fuel_visit (assoc_kids l) f p U HU HK (S (length l))) tops s (HB p s)) as H1.
   destruct (fold_visit (visit repaired (assoc_kids l) f p (S (length l))) s tops) as [s1 r1]. cbn [snd] in H1.
   destruct r1 as [e|]; [exact H1 | apply IH].
